@@ -867,6 +867,17 @@ func (ex *Exec) scanCall(fr *frame, c *ssa.CallCommon, ms *modSet, depth int, vi
 		}
 	}
 	if fn == nil {
+		// a dynamic function value whose named function type carries a contract
+		if n, ok := types.Unalias(c.Value.Type()).(*types.Named); ok && n.Obj().Pkg() != nil {
+			if fc, ok := ex.eng.cs.FuncTypes[n.Obj().Pkg().Path()+"."+n.Obj().Name()]; ok {
+				if sig, ok := n.Underlying().(*types.Signature); ok {
+					fc.sig = sig
+					fc.recvT = c.Value.Type()
+				}
+				ex.contractMods(fc, nil, ms)
+				return
+			}
+		}
 		ms.setAll(fmt.Sprintf("site5 %v", ""))
 		return
 	}
